@@ -172,12 +172,13 @@ func applyAt(m, sib protoreflect.Message, path string, e edit, r *rand.Rand) {
 		pm.Set(fd, protoreflect.ValueOfEnum(protoreflect.EnumNumber(e.V)))
 	case protoreflect.BytesKind:
 		var sb []byte
+		found := false
 		if sib != nil {
 			if sp, sfd := resolveRO(sib, path); sp != nil {
-				sb = sp.Get(sfd).Bytes()
+				sb, found = sp.Get(sfd).Bytes(), true // (an unset field of the sibling is the empty value)
 			}
 		}
-		if e.Op == "sibling" && sb == nil {
+		if e.Op == "sibling" && !found {
 			vt.Fatal("no sibling value for %s", e.Path)
 		}
 		pm.Set(fd, protoreflect.ValueOfBytes(editBytes(pm.Get(fd).Bytes(), sb, e, r)))
